@@ -1,4 +1,5 @@
 import RaftVerif.Driver.Text
+import RaftVerif.Driver.StorageText
 open Raft Raft.Text
 
 /-- One input line → one output line. -/
@@ -14,7 +15,9 @@ def stepLine (line : String) : String :=
     | none => "err"
     | some (n', r, eff) => s!"{showRVResp r} | {showNode n'} | {showEffects eff}"
   | ["ECHO", node] => showNode (parseNode node)
-  | _ => "bad-op"
+  | _ => match storageLine secs with
+    | some r => r
+    | none => "bad-op"
 
 partial def loop (h : IO.FS.Stream) (out : IO.FS.Stream) : IO Unit := do
   let line ← h.getLine
